@@ -366,21 +366,22 @@ Definition repeat_line (st : pstate) (val : str) : res pstate :=
   | _ => Err
   end.
 
+Definition dispatch (st : pstate) (key : N) (val : str) (o : N) : res pstate :=
+  match p_st st with
+  | StInitial =>
+      if key =? 118 then (if str_eqb val $"0" then Ok (set_st st StSession) else Err)
+      else session_line (set_st st StSession) key val o
+  | StSession => session_line st key val o
+  | StMedia => media_line st key val o
+  | StTime =>
+      if key =? 114 then repeat_line st val
+      else session_line (set_st st StSession) key val o
+  end.
 Definition parse_line (st : pstate) (line : str) (o : N) : res pstate :=
   match line with
   | [] => Ok st
-  | key :: 61 :: val =>
-      match p_st st with
-      | StInitial =>
-          if key =? 118 then (if str_eqb val $"0" then Ok (set_st st StSession) else Err)
-          else session_line (set_st st StSession) key val o
-      | StSession => session_line st key val o
-      | StMedia => media_line st key val o
-      | StTime =>
-          if key =? 114 then repeat_line st val
-          else session_line (set_st st StSession) key val o
-      end
-  | _ => Err
+  | [_] => Err
+  | key :: c :: val => if c =? 61 then dispatch st key val o else Err
   end.
 
 Fixpoint parse_lines (st : pstate) (lines : list str) (os : list N) : res pstate :=
